@@ -8,6 +8,10 @@ trap 'git -C /repo worktree remove --force '$wt' >/dev/null 2>&1' EXIT
 echo "== demo without the change:"; (cd $wt && PYTHONPATH=$wt/src timeout 600 /venv/bin/python $d/demo.py >/dev/null 2>&1; echo "exit $?")
 if ! git -C $wt apply $d/patch.diff; then echo "PATCH DOES NOT APPLY"; exit 3; fi
 echo "== demo with the change:"; (cd $wt && PYTHONPATH=$wt/src timeout 600 /venv/bin/python $d/demo.py 2>&1 | tail -3; echo "exit ${PIPESTATUS[0]}")
+if [ -n "$TESTS" ]; then
+  echo "== repository tests with the change ($TESTS):"
+  (cd $wt && PYTHONPATH=$wt/src timeout 3000 /venv/bin/python -m pytest -q -p no:cacheprovider $TESTS -q 2>&1 | grep -v "^WARNING conda" | tail -3)
+fi
 for c in "$@"; do
   echo "== check $c (tier ${TIER:-quick}) against the change:"
   (cd /verif && VERIF_EVIDENCE_DIR=/dev/shm/seed_evidence VERIF_REPO_SRC=$wt/src timeout -s KILL 3000 ./check $c --tier ${TIER:-quick} --jobs ${JOBS:-16} 2>&1 | grep -v "^WARNING conda" > /dev/shm/try_seed_$c.log; grep -v "^WARNING conda" /dev/shm/try_seed_$c.log | grep "^VIOLATION\|^  signature\|^$c tier\|KNOWN\|Error\|error" | cut -c1-260 | head -14)
